@@ -1182,11 +1182,20 @@ class PSBTIn:
             elif script_pubkey.is_p2wpkh() or (
                 self.redeem_script and self.redeem_script.is_p2wpkh()
             ):
+                if script_pubkey.is_p2wpkh():
+                    h160 = script_pubkey.commands[1]
+                else:
+                    # p2sh-p2wpkh: the RedeemScript has the hash160 of the pubkey
+                    if self.redeem_script.hash160() != script_pubkey.commands[1]:
+                        raise ValueError(
+                            "RedeemScript hash160 and ScriptPubKey hash160 do not match"
+                        )
+                    h160 = self.redeem_script.commands[1]
                 if len(self.named_pubs) > 1:
                     raise ValueError("too many pubkeys in p2wpkh or p2sh-p2wpkh")
                 elif len(self.named_pubs) == 1:
                     named_pub = list(self.named_pubs.values())[0]
-                    if script_pubkey.commands[1] != named_pub.hash160():
+                    if h160 != named_pub.hash160():
                         raise ValueError(
                             "pubkey {} does not match the hash160".format(
                                 named_pub.sec().hex()
